@@ -110,7 +110,7 @@ def run(ctx, out):
     out.rule = ("trees (source mtimes before 1970, at the epoch, in 2100) with single-block, multi-block (2..16 blocks of 16 KiB), empty, all-hole, leading- and trailing-hole files; "
                 "both drivers, workers 1/2/4/16, random thread holds (several seeds), copy_file_range available or failing with "
                 "ENOSYS/EXDEV (user-space fallback), extended attributes refused by the destination (ENOSPC/EPERM/ENOTSUP/E2BIG/EACCES: "
-                "best effort, only warned about), ONE flush of the run refused (EINVAL/ENOSYS/EOPNOTSUPP/EIO: the others must still happen), single-file invocations with the destination spelled as a bare name / ./name / sub/name / absolute / a directory / -t DIR; --fsync on (oracle: fsync entered after the last data/size call of the "
+                "best effort, only warned about), ONE flush of the run refused (EINVAL/ENOSYS/EOPNOTSUPP/EIO: the others must still happen), single-file invocations with the destination spelled as a bare name / ./name / sub/name / absolute / a directory / -t DIR; a source truncated by another process while the flush is held; --fsync on (oracle: fsync entered after the last data/size call of the "
                 "file and returned before exit; also when the run goes onto the result of the previous one) and off (oracle: no fsync); non-trivial = --fsync run with >= 2 workers; "
                 "distinct = (case, driver, workers, seed, fsync, cfr)")
     ncases = 3 if quick else 20
@@ -246,6 +246,43 @@ def run(ctx, out):
                     if not created:
                         out.violation("destination file never created", rep)
                 shutil.rmtree(d, ignore_errors=True)
+    # ---- the SOURCE is truncated by another process while the destination's flush is in progress (every fsync / fdatasync is held
+    #      1.5 s; the environment acts once the destination holds all the bytes): whatever xcp makes of that, nothing may write to
+    #      or resize the destination after its last flush
+    import time
+    for driver in ("parfile", "parblock"):
+        d = os.path.join(d0, "shrink_%s" % driver)
+        os.makedirs(d)
+        size = 3 * (1 << 20) + 4321
+        fsutil.make_file(os.path.join(d, "in.bin"), size, [(0, size)], tag=91, sync=True)
+        acted = []
+
+        def env(d=d, size=size, acted=acted):
+            t0 = time.time()
+            while time.time() - t0 < 20:
+                try:
+                    if os.path.getsize(os.path.join(d, "out.bin")) == size and \
+                            open(os.path.join(d, "out.bin"), "rb").read() == open(os.path.join(d, "in.bin"), "rb").read():
+                        break
+                except OSError:
+                    pass
+                time.sleep(0.02)
+            try:
+                os.truncate(os.path.join(d, "in.bin"), 1000)
+                acted.append(1)
+            except OSError:
+                pass
+        argv = [ctx.bins["xcp"], "--fsync", "--driver", driver, "-w", "4", "--block-size", str(1 << 20), "in.bin", "out.bin"]
+        rules = [("hold", 1500, 0, "fsync", 0, "*"), ("hold", 1500, 0, "fdatasync", 0, "*")]
+        r = xcp.run_supervised(sup, argv, d, d, rules=rules, tag="sh", timeout_ms=60000, during=env, during_delay=0.0)
+        out.case(("source-truncated-during-the-flush", driver), nontrivial=bool(acted))
+        out.count("source_truncated_during_the_flush")
+        if r.exit == 0:
+            probs, created = check_trace(r, d + "/", True)
+            for pr in [x for x in probs if "/.sup/" not in x and "out.bin" in x][:1]:
+                out.violation(pr + " (the source was truncated by another process while the flush was in progress; %s)" % driver,
+                              dict(argv=argv[1:], rules=rules, environment="truncate in.bin to 1000 bytes once out.bin is complete", exit=r.exit, stderr=r.stderr[-200:]))
+        shutil.rmtree(d, ignore_errors=True)
     if ctx.model_ok and minputs:
         res = core.run_model("run_copy_actions", minputs, shard=40, tag="c18a")
         for (rep, codes), mo in zip(mmeta, res):
